@@ -70,8 +70,10 @@ pub struct SimTarget<'a> {
     pub ops: RefCell<Vec<String>>,
     pub log_digest: Cell<u64>,
     pub fired: RefCell<BTreeMap<String, u32>>,
-    pub hits: RefCell<Vec<(String, String)>>,
+    pub hits: RefCell<Vec<(String, String, String)>>,
     pub probes: RefCell<BTreeMap<String, u64>>,
+    /// read-only entries (by index) for which an operation-level C15 hit was already recorded
+    pub c15_flagged: RefCell<BTreeSet<usize>>,
     monitors: Monitors,
     secret_keys: RefCell<BTreeSet<String>>,
 }
@@ -169,9 +171,15 @@ impl<'a> SimTarget<'a> {
             fired: RefCell::new(BTreeMap::new()),
             hits: RefCell::new(vec![]),
             probes: RefCell::new(BTreeMap::new()),
+            c15_flagged: RefCell::new(BTreeSet::new()),
             monitors,
             secret_keys: RefCell::new(initial_secret_keys.iter().cloned().collect()),
         }
+    }
+
+    /// read the backing store directly (no yield, no log, no fault): for before/after snapshots
+    pub fn peek(&self, path: &OwnedTargetPath) -> Option<Value> {
+        self.inner.t().target_get(path).ok().flatten().cloned()
     }
 
     pub fn op_count(&self) -> u32 {
@@ -232,6 +240,7 @@ impl<'a> SimTarget<'a> {
         if !ok {
             self.hits.borrow_mut().push((
                 "c16".to_string(),
+                String::new(),
                 format!(
                     "target_{op}({}) as operation #{k} is not covered by the reported {}",
                     render::target_path(path),
@@ -264,8 +273,9 @@ impl<'a> SimTarget<'a> {
                 w[n - 1] = RSeg::IndexFrom(i);
             }
         } else if let Some(pos) = w.iter().position(|s| *s == RSeg::Unknown) {
-            // insert through an out-of-range negative index pads at the front: the whole array is restructured
+            // insert through an out-of-range negative index pads at the front: every element of that array moves
             w.truncate(pos);
+            w.push(RSeg::IndexFrom(0));
         }
         let ro_resolved: Vec<Vec<RSeg>> = ro
             .iter()
@@ -291,20 +301,26 @@ impl<'a> SimTarget<'a> {
                     render::opt_value(after.as_ref())
                 )
             };
-            if *recursive {
-                if *b != after {
-                    self.hits.borrow_mut().push(("c15".into(), desc("changed the value at")));
-                }
+            let what = if *recursive {
+                if *b != after { Some(desc("changed the value at")) } else { None }
+            } else if b.is_some() && after.is_none() {
+                Some(desc("removed the value at"))
+            } else if p.prefix == path.prefix
+                && !before.ro_resolved[i].contains(&RSeg::Unknown)
+                && written_hits(&before.written, &before.ro_resolved[i])
+                && *b != after
+            {
+                Some(desc("wrote to (or above)"))
             } else {
-                if b.is_some() && after.is_none() {
-                    self.hits.borrow_mut().push(("c15".into(), desc("removed the value at")));
-                } else if p.prefix == path.prefix
-                    && !before.ro_resolved[i].contains(&RSeg::Unknown)
-                    && written_hits(&before.written, &before.ro_resolved[i])
-                    && *b != after
-                {
-                    self.hits.borrow_mut().push(("c15".into(), desc("wrote to (or above)")));
+                None
+            };
+            if let Some(what) = what {
+                let class = classify_c15(op, path, compact, p, *recursive, b.as_ref(), after.as_ref());
+                if class != "read-only-modified" {
+                    self.probe(&format!("c15_shape_{class}"));
                 }
+                self.c15_flagged.borrow_mut().insert(i);
+                self.hits.borrow_mut().push(("c15".into(), class.to_string(), what));
             }
         }
     }
@@ -327,6 +343,50 @@ impl<'a> SimTarget<'a> {
             Backing::Ref(t) => t.get_secret(key),
         }
     }
+}
+
+/// Shape of a C15 hit. The array-aliasing shapes are properties of how array indices behave dynamically
+/// (negative indices, shifting on deletion, padding on insertion, compaction) while the compiler compares
+/// paths syntactically; everything else is the plain class.
+fn classify_c15(
+    op: &str,
+    path: &OwnedTargetPath,
+    compact: bool,
+    p: &OwnedTargetPath,
+    recursive: bool,
+    before: Option<&Value>,
+    after: Option<&Value>,
+) -> &'static str {
+    if path.prefix != p.prefix {
+        return "read-only-modified";
+    }
+    let q = &path.path.segments;
+    let r = &p.path.segments;
+    // first position at which an index of the operation path meets an index of the read-only path in the same array
+    for t in 0..q.len().min(r.len()) {
+        if q[..t] != r[..t] {
+            break;
+        }
+        if let (OwnedSegment::Index(i), OwnedSegment::Index(j)) = (&q[t], &r[t]) {
+            if *i < 0 || *j < 0 {
+                return "array-alias-negative-index";
+            }
+            let last = t + 1 == q.len();
+            if op == "remove" && j > i && (last || compact) {
+                return "array-alias-delete-shifts";
+            }
+            if op == "insert" && j < i && before.is_none() && after == Some(&Value::Null) {
+                return "array-alias-insert-pads";
+            }
+        }
+        if q[t] != r[t] {
+            break;
+        }
+    }
+    if op == "remove" && compact && !recursive && r.len() < q.len() && q[..r.len()] == r[..] {
+        return "compact-delete-cascades-to-ancestor";
+    }
+    "read-only-modified"
 }
 
 struct C15Snapshot {
